@@ -366,28 +366,15 @@ def rule_editing(rep, pdb):
     fn = _need(rep, pdb, "%s::swap_elem" % M, "edit/swap_elem", rule)
     if fn is not None:
         ctx = Ctx.for_fn(pdb, fn)
-        refs = []
-        for n in walk(fn["body"]):
-            if n.get("k") == "Index" and not in_macro(n):
-                r = elem_ref(pdb, ctx, n)
-                if r is not None and len(r) == 3:
-                    refs.append((r[1], r[2]))
+        evs = swap_events(pdb, ctx, fn["body"])
         a, b = (P(1), P(2)), (P(3), P(4))
-        swaps = [n for n in walk(fn["body"]) if n.get("k") == "Call" and callee_path(n) in ("std::mem::swap", "core::mem::swap")]
-        sets = [e for e in effects(pdb, ctx) if e.kind == "set"]
-        ok = sorted(refs, key=repr) in (sorted([a, b, a], key=repr), sorted([a, b, b], key=repr)) and len(swaps) == 1 and len(sets) == 1
-        # the temp holds one element, mem::swap exchanges it with the other, then the temp goes back to the first
-        if ok:
-            e = sets[0]
-            tgt = elem_ref(pdb, ctx, strip(e.node["l"]))
-            tv = e.value
-            tb = ctx.binds.get(tv[1]) if tv[0] == "var" else None
-            first = elem_ref(pdb, ctx, _first_index(tb.init)) if tb is not None and tb.init is not None else None
-            sw = [elem_ref(pdb, ctx, _first_index(x)) for x in call_args(swaps[0])]
-            swapped_with = [s for s in sw if s is not None and len(s) == 3]
-            ok = first is not None and tgt is not None and (tgt[1], tgt[2]) == (first[1], first[2]) and len(swapped_with) == 1 and \
-                {(first[1], first[2]), (swapped_with[0][1], swapped_with[0][2])} == {a, b}
-        rep.add("edit/swap_elem", rule, ok, fn["body"], "element refs: %s" % [(show(x, ctx), show(y, ctx)) for x, y in refs], where=loc(fn["body"]))
+        ok = len(evs) == 1 and evs[0][0][0] == "elem2" and evs[0][1][0] == "elem2" and evs[0][0][1] == P(0) and evs[0][1][1] == P(0) and \
+            {(evs[0][0][2], evs[0][0][3]), (evs[0][1][2], evs[0][1][3])} == {a, b}
+        # nothing else is written
+        sets = [e for e in effects(pdb, ctx) if e.kind in ("set", "upd")]
+        ok = ok and len(sets) <= 1
+        rep.add("edit/swap_elem", rule, ok, fn["body"], "exchange events: %s" % [(show(e_[0][2], ctx), show(e_[0][3], ctx), show(e_[1][2], ctx), show(e_[1][3], ctx)) for e_ in evs if e_[0][0] == "elem2" and e_[1][0] == "elem2"],
+                where=loc(fn["body"]))
     # swap_rows: for j in 0..cols swap_elem(r1, j, r2, j)
     rule = "swap_rows(a,b) = swap_elem(a,j,b,j) for every j in 0..cols"
     fn = _need(rep, pdb, "%s::swap_rows" % M, "edit/swap_rows", rule)
@@ -590,7 +577,7 @@ def run(rep, pdb, tier):
     rule_products(rep, pdb)
     rule_editing(rep, pdb)
     n_del = rule_delegation(rep, pdb, ("src/matrix/arithmetic.rs",))
-    rep.floor("index-kinds/", 100)
+    rep.floor("index-kinds/", 70)
     rep.floor("elementwise-polarity/", 12)
     rep.floor("elementwise-coindex/", 12)
     rep.floor("elementwise-fullrange/", 12)
